@@ -1568,7 +1568,7 @@ package goatlang
 //@   property C16 C03
 //@   trusted
 //@   requires#top top != nil
-//@   modifies allbut(H$VM)
+//@   modifies allbut(H$VM,H$lookup)
 //@   nopanic
 //@   ensures result == top
 //@   trusted_ensures hoisted(result)
@@ -1588,19 +1588,27 @@ package goatlang
 //@ func joinFiles loop 0
 //@   invariant tok != nil && isfresh(tok) && (cap(tok.Tokens) == 0 || isfresh(arr(tok.Tokens)))
 //@
+//@ -- what Load and Eval rely on from a successful load: a non-empty list of non-nil roots, each
+//@ -- with at least one child (an empty package is replaced by a stub)
+//@ spec loaded(l pkgList, err error) bool
+//@   def isnil(err) ==> len(l) >= 1 && (forall j int :: 0 <= j && j < len(l) ==> l[j] != nil && len(l[j].Tokens) >= 1)
 //@ func loadPackage
-//@   property C16 C15
-//@   modifies *
+//@   property C16 C15 C03
+//@   modifies allbut(H$VM,H$lookup)
+//@   nopanic
 //@   callsite#sorted loadImports: hoisted(arg_top)
+//@   ensures#loaded @C03 loaded(result0, result1)
 //@ func loadFile
-//@   property C16 C15
-//@   modifies *
+//@   property C16 C15 C03
+//@   modifies allbut(H$VM,H$lookup)
+//@   nopanic
 //@   callsite#sorted loadImports: hoisted(arg_top)
+//@   ensures#loaded @C03 loaded(result0, result1)
 //@ -- A-WF (tree shape, established by the parser: token.Append rejects nil children, packageNud
 //@ -- gives a package node its name child) is assumed where the loader walks a tree.
 //@ func rawLoadPackage
 //@   property C15 C03
-//@   modifies *
+//@   modifies allbut(H$VM,H$lookup)
 //@   nopanic
 //@   ensures#tree @C03 isnil(result1) ==> result0 != nil
 //@   assume @def:first first != nil && (first.Symbol == "package" ==> len(first.Tokens) >= 1 && first.Tokens[0] != nil)
@@ -1621,7 +1629,7 @@ package goatlang
 //@
 //@ func checkConstraint
 //@   property C15 C03
-//@   modifies *
+//@   modifies allbut(H$VM,H$lookup)
 //@   nopanic
 //@   callsite#firstline go/build/constraint.IsGoBuild: arg_0 == strings.Split(strings.TrimSpace(s), "\n")[0]
 //@   callsite#parse go/build/constraint.Parse: arg_0 == strings.Split(strings.TrimSpace(s), "\n")[0]
@@ -1631,7 +1639,7 @@ package goatlang
 //@   ensures result == (t == "goat")
 //@ func rawLoadFile
 //@   property C15 C03
-//@   modifies *
+//@   modifies allbut(H$VM,H$lookup)
 //@   nopanic
 //@   ensures#tree @C03 isnil(result1) ==> result0 != nil
 //@ extern fmt.Errorf(format string, a []any)
@@ -1651,7 +1659,8 @@ package goatlang
 //@ func loadImports
 //@   property C15 C16 C03
 //@   requires#top top != nil
-//@   modifies *
+//@   modifies allbut(H$VM,H$lookup)
+//@   ensures#one @C03 isnil(result1) ==> len(result0) >= 1
 //@   nopanic
 //@   assume @def:tok tok != nil
 //@   assert#depsHoisted @L0.4 pkg == topPkg || hoisted(p)
@@ -1661,14 +1670,17 @@ package goatlang
 //@   assert#stubframe @C03 @L3.10 forall j int :: 0 <= j && j < len(res) ==> res[j] != nil && len(res[j].Tokens) >= 1
 //@   ensures#nonempty @C03 isnil(result1) ==> (forall j int :: 0 <= j && j < len(result0) ==> result0[j] != nil && len(result0[j].Tokens) >= 1)
 //@ func loadImports loop 0
-//@   invariant true
+//@   invariant#some len(todo) >= 1 || len(packages) >= 1
 //@ func loadImports loop 1
 //@   invariant p != nil
+//@   invariant#some len(packages) >= 1
 //@   assume forall j int :: 0 <= j && j < len(p.Tokens) ==> p.Tokens[j] != nil
 //@ func loadImports loop 2
 //@   invariant t != nil && i >= 1
+//@   invariant#some len(packages) >= 1
 //@   assume forall j int :: 0 <= j && j < len(t.Tokens) ==> t.Tokens[j] != nil
 //@ func loadImports loop 3
+//@   invariant#some len(res) >= 1 || len(packages) >= 1
 //@   invariant#resfresh cap(res) == 0 || (isfresh(arr(res)) && arr(res) != 0)
 //@   invariant#nonempty forall j int :: 0 <= j && j < len(res) ==> res[j] != nil && len(res[j].Tokens) >= 1
 //@ func loadImports loop 4
@@ -2676,6 +2688,8 @@ package goatlang
 //@   requires v != nil && v.globals != nil && slots >= 0 && slots == slotsOf(codes)
 //@   modifies *
 //@   nopanic
+//@   -- the script runs on a VM of its own that shares the globals table; the table stays well formed
+//@   trusted_ensures v.globals == old(v.globals) && (old(wfL(v.globals)) ==> wfL(v.globals))
 //@ func (*VM).run handler
 //@   assume vm.globals == v.globals && vm.globals != nil
 //@   assume forall j int :: 0 <= j && j < len(vm.frame.Codes) ==> posOK(vm.globals, vm.frame.Codes[j].Pos)
@@ -2710,8 +2724,9 @@ package goatlang
 //@   property C03 C15
 //@   axioms TOKARR
 //@   requires wfC(c)
-//@   modifies *
+//@   modifies allbut(H$VM)
 //@   nopanic
+//@   trusted_ensures isnil(err) ==> slots >= 0 && slots == slotsOf(ins)
 //@   ensures#wf isnil(err) ==> wfL(c.Locals) && wfL(c.Globals) && c.Locals == old(c.Locals) && c.Globals == old(c.Globals)
 //@
 //@ -- the stage functions. tokenize sits on text/scanner (external): assumed not to panic and to
@@ -2725,11 +2740,11 @@ package goatlang
 //@ func (*parser).Statement
 //@   property C03
 //@   trusted
-//@   modifies *
+//@   modifies allbut(H$VM,H$lookup)
 //@ func parse
 //@   property C03
 //@   requires len(tokens) >= 1 && (forall j int :: 0 <= j && j < len(tokens) ==> tokens[j] != nil)
-//@   modifies *
+//@   modifies allbut(H$VM,H$lookup)
 //@   nopanic
 //@   ensures#res result0 != nil
 //@ func parse loop 0
@@ -2739,8 +2754,7 @@ package goatlang
 //@
 //@ func (*VM).treeDump
 //@   property C03
-//@   requires forall j int :: 0 <= j && j < len(tree) ==> tree[j] != nil && len(tree[j].Tokens) >= 1 && len(tree[j].Text) >= 1
-//@   modifies *
+//@   modifies allbut(H$VM,H$lookup,H$token,A$Int,A$instruction)
 //@   nopanic
 //@ func (*VM).treeDump loop 0
 //@   invariant true
@@ -2757,10 +2771,77 @@ package goatlang
 //@   property C15 C03 C07
 //@   axioms TOKARR
 //@   requires wfL(g) && (forall j int :: 0 <= j && j < len(pkgs) ==> pkgs[j] != nil)
-//@   modifies *
+//@   modifies allbut(H$VM)
+//@   nopanic
+//@   ensures#wf isnil(result2) ==> wfL(g)
+//@   -- A-SLOTS: the packages of one load share one slot table, so the last count covers them all
+//@   trusted_ensures isnil(result2) ==> result1 >= 0 && result1 == slotsOf(result0)
 //@   callsite#sharedlocals (*compiler).run: arg_c.Locals == locals && arg_c.Globals == g && arg_c.Optimize == optimize
 //@ func compilePkgs loop 0
 //@   invariant#locals locals != nil && wfL(locals) && locals != g && wfL(g)
+
+// ---- the glue of Eval and Load: everything outside the recover handlers ----
+//@ -- keyOps: the operands the VM uses as indexes into the globals table (exec: Read/Key/getIndex
+//@ -- on A for the GLOBAL*/CONST/ATTR/STRUCT/FASTCALL forms, on B for the FAST*-by-name forms) are
+//@ -- inside the table. A-KEY: the compiler only emits indexes it obtained from lookup.Index.
+//@ spec keyA(c code) bool
+//@   def c == codeGlobalGet || c == codeGlobalSet || c == codeConst || c == codeGlobalRef || c == codeGetAttr || c == codeSetAttr || c == codeGlobalFunc || c == codeGlobalStruct || c == codeGlobalZero || c == codeNewStruct || c == codeSetMethod || c == codeFastCall
+//@ spec keyB(c code) bool
+//@   def c == codeFastGet || c == codeFastSet || c == codeFastGetAttr || c == codeFastSetAttr || c == codeFastCallAttr
+//@ spec keyOps(i instruction, g *lookup) bool
+//@   def (keyA(i.Code) ==> 0 <= int(i.A) && int(i.A) < len(g.indexToKey)) && (keyB(i.Code) ==> 0 <= int(i.B) && int(i.B) < len(g.indexToKey))
+//@ func (code).String
+//@   property C03
+//@   trusted
+//@   nopanic
+//@ func (Type).str
+//@   property C03
+//@   trusted
+//@   nopanic
+//@ func (*instruction).String
+//@   property C03
+//@   requires i != nil && g != nil && keyOps(*i, g)
+//@   allocates elems(string)
+//@   nopanic
+//@ func (*VM).codeDump
+//@   property C03
+//@   requires v != nil && v.globals != nil
+//@   assumes#A-POS forall j int :: 0 <= j && j < len(codes) ==> posOK(v.globals, codes[j].Pos)
+//@   assumes#A-KEY forall j int :: 0 <= j && j < len(codes) ==> keyOps(codes[j], v.globals)
+//@   modifies allbut(H$VM,H$lookup,H$token,A$Int,A$instruction)
+//@   nopanic
+//@ func (*VM).codeDump loop 0
+//@   invariant v != nil && v.globals != nil
+//@   assume forall j int :: 0 <= j && j < len(codes) ==> posOK(v.globals, codes[j].Pos) && keyOps(codes[j], v.globals)
+//@ -- run options (WithTreeDump, ...) are closures that assign one field of the configuration
+//@ functype (*VM).Eval.o(self int, c *runConfig)
+//@   modifies H$runConfig
+//@   nopanic
+//@ functype (*VM).Load.o(self int, c *runConfig)
+//@   modifies H$runConfig
+//@   nopanic
+//@ -- Load.f is loadPackage or loadFile (vm.go: f := loadPackage; if ... { f = loadFile }); both are
+//@ -- verified against this contract
+//@ functype (*VM).Load.f(self int, sys fs.FS, arg string)
+//@   modifies allbut(H$VM,H$lookup)
+//@   nopanic
+//@   ensures loaded(result0, result1)
+//@ func (*VM).Eval
+//@   property C03
+//@   axioms TOKARR
+//@   requires v != nil && wfL(v.globals)
+//@   modifies *
+//@   nopanic
+//@   assert#dumpshape @def:pkgs isnil(err) ==> pkgs[len(pkgs)-1] != nil && len(pkgs[len(pkgs)-1].Tokens) >= 1
+//@ func (*VM).Eval loop 0
+//@   invariant v != nil && wfL(v.globals)
+//@ func (*VM).Load
+//@   property C03
+//@   requires v != nil && wfL(v.globals)
+//@   modifies *
+//@   nopanic
+//@ func (*VM).Load loop 0
+//@   invariant v != nil && wfL(v.globals)
 
 // ---------------------------------------------------------------------------------------------
 // C19: the NewFunc adapters. Each wrapper takes the top argc stack values as the native's
